@@ -55,6 +55,16 @@ func c13Combined(in c13In) []model.Payload {
 
 func c13Oracle(in c13In) probe.Outcome {
 	comb := model.Message{Header: in.Host.Header, Payloads: c13Combined(in)}
+	// a packet dump names the payload types it sees (String() of the type code); naming a type does not make it a known one
+	for _, ins := range in.Inserts {
+		if ins.Raw.Type%2 == 1 {
+			_ = probe.Try(func() error {
+				_ = message.IkePayloadType(ins.Raw.Type).String()
+				_ = fmt.Sprintf("%v", message.IkePayloadType(ins.Raw.Type))
+				return nil
+			})
+		}
+	}
 	anyCritical, notAtEnd := false, false
 	for _, ins := range in.Inserts {
 		if ins.Raw.Critical {
@@ -220,14 +230,20 @@ var c13Random = probe.Define("C13", "insert",
 		in := c13In{Host: gen.Message(t, gen.Opts{MaxPayloads: 6, NoBig: true})}
 		n := rapid.IntRange(1, 4).Draw(t, "ninserts")
 		adjacent := rapid.IntRange(0, 3).Draw(t, "adjacent") == 3
+		sameType := rapid.IntRange(0, 2).Draw(t, "sametype") == 2 // the same unsupported type code several times in one chain
+		firstType := unsupportedType(t)
 		pos0 := rapid.IntRange(0, len(in.Host.Payloads)).Draw(t, "pos")
 		for i := 0; i < n; i++ {
 			pos := pos0
 			if !adjacent && i > 0 {
 				pos = rapid.IntRange(0, len(in.Host.Payloads)).Draw(t, "pos")
 			}
+			ty := unsupportedType(t)
+			if sameType {
+				ty = firstType
+			}
 			in.Inserts = append(in.Inserts, c13Insert{Pos: pos, Raw: model.Raw{
-				Type:     unsupportedType(t),
+				Type:     ty,
 				Critical: rapid.IntRange(0, 4).Draw(t, "critical") == 4,
 				Body:     gen.BytesLen(t, "rawbody", 0, 1024, 0, 1, 4, 1024),
 			}})
